@@ -31,11 +31,12 @@ type Config struct {
 	Name      string   `json:"name"`
 	Ctxs      []Script `json:"ctxs"`
 	NVars     int      `json:"nvars"`
-	TimeoutMs []int    `json:"timeout_ms"` // lock timeout per shared variable
-	Invariant bool     `json:"invariant"`  // every writer preserves x+y: every committed snapshot must see the initial sum
-	Bound     int      `json:"bound"`      // preemption bound; -1 = unbounded
-	Timeouts  int      `json:"timeouts"`   // how many times "the timer fires first" may be chosen while another move is enabled
-	MaxAborts int      `json:"max_aborts"` // once this many attempts have aborted (chosen or forced timeouts) no further alternatives are explored: the rest of the execution follows the default (non-preemptive) schedule
+	TimeoutMs []int    `json:"timeout_ms"`        // lock timeout per shared variable
+	Invariant bool     `json:"invariant"`         // every writer preserves x+y: every committed snapshot must see the initial sum
+	Bound     int      `json:"bound"`             // preemption bound; -1 = unbounded
+	Timeouts  int      `json:"timeouts"`          // how many times "the timer fires first" may be chosen while another move is enabled
+	Persist   bool     `json:"persist,omitempty"` // every sharer is wrapped in resources.MakePersistent over an in-memory badger store
+	MaxAborts int      `json:"max_aborts"`        // once this many attempts have aborted (chosen or forced timeouts) no further alternatives are explored: the rest of the execution follows the default (non-preemptive) schedule
 }
 
 var varNames = []string{"x", "y", "t"}
@@ -100,16 +101,37 @@ func (s Script) String() string {
 }
 
 // section templates over variables a, b
-func inc(a int) Section      { return Section{{a, "R", ""}, {a, "W", "inc"}} }
-func blind(a int) Section    { return Section{{a, "W", "tag"}} }
-func read2(a, b int) Section { return Section{{a, "R", ""}, {b, "R", ""}} }
-func cp(a, b int) Section    { return Section{{a, "R", ""}, {b, "W", "copy"}} }
-func rr(a int) Section       { return Section{{a, "R", ""}, {a, "R", ""}} }
-func wr(a int) Section       { return Section{{a, "W", "tag"}, {a, "R", ""}} }
-func rwr(a, b int) Section   { return Section{{a, "R", ""}, {b, "W", "tag"}, {a, "R", ""}} }
-func xfer(a, b int) Section {
-	return Section{{a, "R", ""}, {b, "R", ""}, {a, "W", "dec"}, {b, "W", "inc"}}
+func inc(a int) Section      { return Section{{V: a, K: "R"}, {V: a, K: "W", F: "inc"}} }
+func blind(a int) Section    { return Section{{V: a, K: "W", F: "tag"}} }
+func read2(a, b int) Section { return Section{{V: a, K: "R"}, {V: b, K: "R"}} }
+func cp(a, b int) Section    { return Section{{V: a, K: "R"}, {V: b, K: "W", F: "copy"}} }
+func rr(a int) Section       { return Section{{V: a, K: "R"}, {V: a, K: "R"}} }
+func wr(a int) Section       { return Section{{V: a, K: "W", F: "tag"}, {V: a, K: "R"}} }
+func rwr(a, b int) Section {
+	return Section{{V: a, K: "R"}, {V: b, K: "W", F: "tag"}, {V: a, K: "R"}}
 }
+func xfer(a, b int) Section {
+	return Section{{V: a, K: "R"}, {V: b, K: "R"}, {V: a, K: "W", F: "dec"}, {V: b, K: "W", F: "inc"}}
+}
+
+// shapes over the function-valued variable t (indexed access through Index(), as raftkvs does with nextIndex[i][j])
+var awaitFalse = Op{K: "A"}
+
+func iw(k int) Section   { return Section{{V: tVar, I: k, K: "W", F: "tag"}} } // t[k] := v
+func ir(k int) Section   { return Section{{V: tVar, I: k, K: "R"}} }           // read t[k]
+func iinc(k int) Section { return Section{{V: tVar, I: k, K: "R"}, {V: tVar, I: k, K: "W", F: "inc"}} }
+func wt() Section        { return Section{{V: tVar, K: "W", F: "tag"}} } // t := f (whole variable)
+func rt() Section        { return Section{{V: tVar, K: "R"}} }           // read t (whole variable)
+func rwt() Section       { return Section{{V: tVar, K: "R"}, {V: tVar, K: "W", F: "tag"}} }
+func iwA(k int) Section  { return append(iw(k), awaitFalse) } // indexed write, then the section aborts (await FALSE), then is retried
+func wtA() Section       { return append(wt(), awaitFalse) }  // whole-variable write, abort, retry
+
+// indexed / whole write of t, then an access of x: aborts by lock timeout when another context holds x
+func iwx(k int) Section { return Section{{V: tVar, I: k, K: "W", F: "tag"}, {V: 0, K: "R"}} }
+func wtx() Section      { return Section{{V: tVar, K: "W", F: "tag"}, {V: 0, K: "R"}} }
+
+// read x, then read t[k]: holds x while it looks at the element
+func xir(k int) Section { return Section{{V: 0, K: "R"}, {V: tVar, I: k, K: "R"}} }
 
 func usesVars(scripts []Script) int {
 	n := 1
